@@ -176,8 +176,9 @@ def _rest(ck, repo):
         ok = bool(final) and all(fv.guarded(r, lambda t: t == exname, "F") or fv.dominated_by(r, st) and fv.guarded(r, lambda t: t == exname, "F") for r in final)
         ck.ob("execute_fields: the response mapping is built only when no child failure was collected", ok, f, final[-1] if final else f.node,
               construct="parent:build-guarded")
-        ck.ob("execute_fields: failures are extracted from the complete result list", arg_text(ex, 0) == "results" and not fv.enclosing_loops(ex), f, ex,
-              construct="parent:extract")
+        # every result (a list, or the values of a mapping keyed by response name), after the loop
+        ck.ob("execute_fields: failures are extracted from the complete result list", arg_text(ex, 0) in ("results", "results.values()", "list(results.values())") and
+              not fv.enclosing_loops(ex), f, ex, construct="parent:extract")
         g = fv.one_call("gather")
         ck.ob("execute_fields: gather(return_exceptions=True) so one failing sibling does not abandon the others",
               arg_text(g, None, "return_exceptions") == "True", f, g, construct="parent:return-exceptions")
@@ -284,7 +285,16 @@ def operation_catch(ck, repo):
         o = repo.func(EXECUTE, "execute_operation")
         ov = FuncView(o)
         for nm in ("execute_fields_serially", "execute_fields"):
-            c = ov.one_call(nm)
+            cs_ = ov.calls(nm)
+            if len(cs_) == 1:
+                c = cs_[0]
+            else:
+                # the executor is picked into a local and called once: that call stands for both
+                picks = [n for n in walk_no_nested(o.node) if isinstance(n, ast.Assign) and isinstance(n.value, ast.Name) and n.value.id == nm and isinstance(n.targets[0], ast.Name)]
+                via = [x for x in ov.calls() if picks and isinstance(x.func, ast.Name) and x.func.id == picks[0].targets[0].id]
+                if len(picks) != 1 or len(via) != 1:
+                    raise AnalysisError(f"expected exactly one call of {nm} in {o.short} (directly or through one local), found {len(cs_)}")
+                c = via[0]
             h = ov.in_broad_try(c)
             ok = h is not None and h.name is not None
             if ok:
@@ -374,7 +384,9 @@ def _error_records(ck, repo):
     for fn_, view in ((le, lv), (gn, gv)):
         nm = fn_.positional_params[1]
         wraps = [n for n in walk_no_nested(fn_.node) if isinstance(n, ast.Assign) and unparse(n.targets[0]) == nm and unparse(n.value) == f"[{nm}]"]
-        ok = len(wraps) == 1 and set(view.conditions(wraps[0])) == {(f"isinstance({nm}, list)", "F")}
+        cw = set(view.conditions(wraps[0])) if len(wraps) == 1 else set()
+        # (the missing-nodes arm may come first in the same chain: then the wrap is also "not None")
+        ok = len(wraps) == 1 and (f"isinstance({nm}, list)", "F") in cw and cw - {(f"isinstance({nm}, list)", "F")} <= {(f"{nm} is None", "F")}
         ck.ob(f"{fn_.name}: a single node is wrapped into a list exactly when it is not one already", ok, fn_, wraps[0] if wraps else fn_.node, construct=f"{fn_.name}:nodes-normalised")
     nn = [n for n in walk_no_nested(le.node) if isinstance(n, ast.Assign) and unparse(n.targets[0]) == lp[1] and unparse(n.value) == "[]"]
     ck.ob("located_error: missing nodes become the empty list", len(nn) == 1 and set(lv.conditions(nn[0])) == {(f"{lp[1]} is None", "T")}, le, nn[0] if nn else le.node,
